@@ -187,7 +187,7 @@ def mixin(tok, sid, delay, console):
     raise HarnessError(f"base token {tok!r}")
 
 
-def compose(bases_tok, delay, staged=0):
+def compose(bases_tok, delay, staged=0, merge=False):
     """`staged` = k > 0: the LAST k bases (with the shell / connector they may contain) form a class of their own
     when that is a complete machine — it is instantiated and entered once, fault-free and unrecorded, before the
     class of the case is derived from it by adding the remaining mixins in front (`class Case(Mix0, …, Base)`):
@@ -197,13 +197,35 @@ def compose(bases_tok, delay, staged=0):
     hosts = [(sid, tok) for sid, tok in enumerate(toks) if tok[0] == "l"]
     if len(hosts) > 1 or any(t[1:] not in STYLES for _, t in hosts):
         raise HarnessError("at most one lab-host token lg/lk")
+    # `merge`: ONE class provides two kinds of step (as a board class that defines both `_init_pre_connect` and
+    # `_init_post_shell` does): the last mixin of kind A and the first of kind B, where every A precedes every B in the
+    # declaration — then the merged class, placed where the A mixin was, keeps the order of the steps of both kinds
+    merged = {}
+    if merge:
+        cm = [(sid, tok) for sid, tok in enumerate(toks) if tok[0] in CM_KINDS and tok[1:] in STYLES]
+        for a, b in (("p", "q"), ("p", "i"), ("i", "q")):
+            kind_of = lambda tok: "i" if tok == "w" else tok[0]     # noqa: E731  (PowerControl is an initialiser)
+            ia = [sid for sid, tok in enumerate(toks) if kind_of(tok) == a]
+            ib = [sid for sid, tok in enumerate(toks) if kind_of(tok) == b]
+            ok = lambda sid: toks[sid] != "w" and toks[sid][1:] in STYLES   # noqa: E731
+            if ia and ib and max(ia) < min(ib) and ok(max(ia)) and ok(min(ib)):
+                merged = {max(ia): min(ib)}
+                break
+    skip = set(merged.values())
     for sid, tok in enumerate(toks):
-        if tok[0] == "l":
+        if tok[0] == "l" or sid in skip:
             continue
         if tok == "h":
             if "init" in ns:
                 raise HarnessError("two hooks")
             ns["init"] = (lambda s: lambda self: self._life.ev(f"h{s}"))(sid)
+        elif sid in merged:
+            other = merged[sid]
+            b1, m1 = CM_KINDS[tok[0]]
+            b2, m2 = CM_KINDS[toks[other][0]]
+            bases.append(type(f"Mix2_{sid}_{other}", (b1, b2), {
+                m1: (lambda st, i: lambda self: make_cm(st, self._life, i))(tok[1:], sid),
+                m2: (lambda st, i: lambda self: make_cm(st, self._life, i))(toks[other][1:], other)}))
         else:
             bases.append(mixin(tok, sid, delay, bool(hosts)))
     kinds = [t[0] for t in toks]
@@ -301,9 +323,10 @@ def run_case(line):
     toks = line.split()
     if len(toks) < 2:
         raise HarnessError("case needs <bases> <delay>")
-    dtok = toks[1].split("@")
+    merge = toks[1].endswith("+m")
+    dtok = toks[1][:-2].split("@") if merge else toks[1].split("@")
     delay = int(dtok[0])
-    cls, host = compose(toks[0], delay, int(dtok[1]) if len(dtok) > 1 else 0)
+    cls, host = compose(toks[0], delay, int(dtok[1]) if len(dtok) > 1 else 0, merge)
     rec = Recorder()
     bases = [] if toks[0] == "." else toks[0].split(",")
     rec.power_sid = bases.index("w") if "w" in bases else None
